@@ -113,3 +113,32 @@ pub fn random_u64() -> Option<u64> {
     z = (z ^ (z >> 27)).wrapping_mul(0x94D049BB133111EB);
     Some(z ^ (z >> 31))
 }
+
+thread_local! {
+    static YIELD_PLAN: RefCell<Option<(Vec<u8>, usize)>> = const { RefCell::new(None) };
+}
+
+/// Install (or clear) a plan of cooperative yields for the current thread: the k-th call of
+/// [`maybe_yield`] on this thread yields `plan[k % len]` times. Meant for current-thread runtimes.
+pub fn set_yield_plan(plan: Option<Vec<u8>>) {
+    YIELD_PLAN.with(|p| *p.borrow_mut() = plan.filter(|v| !v.is_empty()).map(|v| (v, 0)));
+}
+
+/// A generated number of `yield_now()`s (none unless a plan is installed on this thread).
+#[cfg(not(target_family = "wasm"))]
+pub async fn maybe_yield(_label: &'static str) {
+    let n = YIELD_PLAN.with(|p| {
+        let mut p = p.borrow_mut();
+        match p.as_mut() {
+            Some((plan, k)) => {
+                let n = plan[*k % plan.len()];
+                *k += 1;
+                n
+            },
+            None => 0,
+        }
+    });
+    for _ in 0..n {
+        tokio::task::yield_now().await;
+    }
+}
